@@ -112,7 +112,10 @@ func drawEnvelopeBase(rt *rapid.T, b *base, n int, used map[uint32]bool) {
 var envelopeWeakKinds = []string{"envelope-dek-aes-size", "envelope-dek-hmac-key", "envelope-dek-hmac-tag"}
 
 func drawWeakEnvelope(rt *rapid.T, w *weak) {
-	w.group = fAEAD
+	// The property lists minimum strengths of KEYS; a DEK template is a recipe for keys, one level down:
+	// that it "never yields a usable primitive" is the harness's reading, not the text.  Run under the
+	// general oracle, a working primitive is counted (observed_not_asserted/unasserted_weak_key_gives_primitive).
+	w.group, w.asserted = fAEAD, false
 	var tmpl *tinkpb.KeyTemplate
 	var what string
 	rewrite := func(t *tinkpb.KeyTemplate, op func(m protoreflect.Message) string) {
